@@ -232,6 +232,16 @@ class World:
                     bad.append(("healthy-connection-dropped-at-release",
                                 f"{op.label} succeeded on socket {sid}, which is "
                                 + ("closed" if sk.state != "connected" else "not idle in the pool") + " afterwards"))
+        # a call only disposes of the connection(s) it checked out (and of expired ones met on the way): a
+        # healthy idle sibling that it did not use stays idle and open, whatever the call's own fate
+        for c, (open_, true_age, impl_age) in before:
+            if any(c is x for x in self.checked) or not open_ or (idle and true_age > idle):
+                continue
+            if not any(c is x for x in pool._free_objs) or c.sock is None or c.sock.state != "connected":
+                bad.append(("idle-sibling-disposed",
+                            f"{op.label} ({'failed' if inner_raised else 'ok'}) did not use the connection that was idle for "
+                            f"{true_age}s (timeout {idle}), yet it is "
+                            + ("no longer in the pool" if not any(c is x for x in pool._free_objs) else "closed") + " afterwards"))
         # quit is a deliberate discard
         if op.name == "quit":
             for c in self.checked:
@@ -293,8 +303,8 @@ def _worker(job, chk):
         idle = cfg[2]
         advs = () if not idle else (ADVANCES if idle == IDLE else (1, 2.2, 2.5, 3))
         events = [("adv", d) for d in advs]
-        if idle and cfg[0] != 1 and len(hist) < 3:
-            events += [("overlap", d) for d in ((3, IDLE - 1) if idle == IDLE else (1, 2.2))]
+        if cfg[0] != 1 and len(hist) < 3:
+            events += [("overlap", d) for d in ((3, IDLE - 1) if idle == IDLE else ((1, 2.2) if idle else (0,)))]
         for oi in range(len(alpha)):
             for plan in plans_for(cfg, alpha, list(hist), oi, bound):
                 events.append(("op", oi, plan))
